@@ -34,6 +34,12 @@ func (vc *VC) reset(dry bool) {
 	vc.defers, vc.inputs, vc.unsupp = nil, nil, nil
 	vc.useRoot = false
 	vc.trusted = map[string]bool{}
+	vc.revealed = map[string]bool{}
+	if vc.spec != nil {
+		for _, r := range vc.spec.Reveals {
+			vc.revealed[r] = true
+		}
+	}
 }
 
 // Generate builds the VC. Two passes: a dry pass to find what each loop modifies, then the real one.
